@@ -9,6 +9,23 @@ F = "automata.py"
 PEEK_FIELDS = {'_back': 'MutIntList', '_iter': 'Iter', '_sent': 'Int'}
 
 
+def _sample_peeking(rng):
+    seq = [rng.randint(0, 255) for _ in range(rng.choice([0, 0, 1, 2, 5]))]
+    return {'self._back': [rng.randint(0, 255) for _ in range(rng.choice([0, 0, 1, 3]))], 'self._iter.seq': seq,
+            'self._iter.pos': rng.randint(0, len(seq)), 'self._sent': rng.randint(0, 50)}
+
+
+def _run_peeking_next(vals):
+    import cpppo
+    p = cpppo.peeking(vals['self._iter.seq'][vals['self._iter.pos']:])
+    p._back = list(vals['self._back'])
+    p._sent = vals['self._sent']
+    try:
+        return ('return', next(p))
+    except StopIteration:
+        return ('raise', 'StopIteration')
+
+
 def peeking_specs():
     push = Spec('peeking.push', (F, 'peeking.push'), params={'item': 'Int'}, fields=PEEK_FIELDS,
                 ensures=[('pushed-back symbol is delivered next', 'self._back == old(self._back) + [item]'),
@@ -27,7 +44,7 @@ def peeking_specs():
                raises={'StopIteration': 'len(B) == 0 and len(R) == 0'},
                refuses=[('empty', 'len(B) == 0 and len(R) == 0')], accepts=[('pending', 'len(B) > 0 or len(R) > 0')],
                modifies=['self._back', 'self._sent', 'self._iter'], returns='Int',
-               hints=dict(state_unchanged_on_raise=True))
+               hints=dict(state_unchanged_on_raise=True, sample=_sample_peeking, concrete=_run_peeking_next))
     peek = Spec('peeking.peek', (F, 'peeking.peek'), params={}, fields=PEEK_FIELDS,
                 defs=dict(B='old(self._back)', R='old(rest(self._iter))'),
                 ensures=[('returns the symbol that next() would deliver, or None at the end',
